@@ -32,3 +32,5 @@ def check(run):
         'yatiml/util.py::diagnose_extraneous_key'])
     ctx = GC.Ctx(run, 'C17')
     GC.frames(ctx)
+    from checks.main import errors_bounded
+    errors_bounded(run)
